@@ -16,7 +16,7 @@ func init() {
 		ID: "C02", Fn: c02,
 		Rule:        "one evaluation = one (position, legal move) pair: engine DoMove result (FEN string + per-square piece accessor, rights, ep square, clock, side) compared with refchess successor; plus whole games up to 500 plies compared ply by ply; distinct = distinct (position identity, move) pairs",
 		Assumptions: []string{"refchess successor function incl. FEN convention 'ep target after every double push'"},
-		Required:    []string{"pairs", "castling_moves", "ep_moves", "promotion_moves", "rook_home_captures", "king_moves_with_rights", "long_games_400plus", "black_start_games", "promo_capture_corner"},
+		Required:    []string{"pairs", "castling_moves", "ep_moves", "promotion_moves", "rook_home_captures", "king_moves_with_rights", "long_games_400plus", "black_start_games", "promo_capture_corner", "fen_variant_games"},
 		MinEvals:    10000,
 	})
 	register(&CheckSpec{
@@ -131,6 +131,43 @@ func c02(c *Ctx) {
 		if sampled < 2 && len(g.Steps) > 2 {
 			sampled++
 			rep.Sample(map[string]interface{}{"fen": g.Start.FEN(), "move": g.Steps[0].Move.UCI(), "successor": g.Steps[0].After.FEN()})
+		}
+		// the same start position described by other FEN texts the engine accepts (counters
+		// omitted, move number 0, large counters): whatever position the engine reports right
+		// after set-up, play from it has to follow the rules
+		vr := SubRng(c.Seed, "c02/fenvariant", int(hashStr(g.Start.RepKey())%1000003))
+		if vr.Chance(0.35) {
+			f := strings.Fields(g.Start.FEN())
+			texts := []string{
+				strings.Join(f[:4], " "),
+				strings.Join(f[:4], " ") + " 0 0",
+				strings.Join(f[:4], " ") + " 7 0",
+				strings.Join(f[:5], " "),
+				strings.Join(f[:4], " ") + fmt.Sprintf(" %d %d", 60+vr.Intn(39), 200+vr.Intn(700)),
+			}
+			text := texts[vr.Intn(len(texts))]
+			if strings.Fields(text)[3] != "-" && len(strings.Fields(text)) > 4 && strings.Fields(text)[4] != "0" {
+				text = strings.Join(f[:4], " ") + " 0 0" // an ep square implies clock 0
+			}
+			vp, err := position.NewPositionFen(text)
+			if err != nil || vp == nil {
+				rep.Inc("fen_variant_rejected")
+			} else if vb, perr := rc.ParseFEN(vp.StringFen()); perr == nil && vb.Validate() == nil {
+				rep.Inc("fen_variant_games")
+				for ply := 0; ply < 6; ply++ {
+					ms := vb.Legal()
+					if len(ms) == 0 {
+						break
+					}
+					m := ms[vr.Intn(len(ms))]
+					rep.Eval(1)
+					ctx := map[string]interface{}{"fen_text": text, "position_reported_after_setup_or_last_move": vb.FEN(), "move": m.UCI(), "ply": ply + 1}
+					nb := vb.Apply(m)
+					vp.DoMove(toEng(m))
+					compareSuccessor(rep, vp, nb, moveClass(vb, m)+":fen-variant", ctx)
+					vb = nb
+				}
+			}
 		}
 	})
 	// whole games compared ply by ply, up to the documented capacity
